@@ -13,6 +13,12 @@ inductive FV where
   | int (i : Int)
   | flt (n8 : Int)      -- the float n8 / 8
   | bool (b : Bool)
+  | arrStr (l : List Bytes)   -- [String!]
+  | arrInt (l : List Int)     -- [Int!]
+  | arrBool (l : List Bool)   -- [Boolean!]
+  /-- an array whose elements may be nil (`[Int]`, `[String]`, ...): `Document.Bytes` serialises every element — a
+      value of an option type without a CBOR form — as an empty map, so only the LENGTH of the array reaches the bytes -/
+  | optArr (n : Nat)
   deriving DecidableEq, Repr, Inhabited
 
 /-- big-endian `w` bytes -/
@@ -50,6 +56,10 @@ def encVal : FV → Bytes
   | .int i => if i ≥ 0 then head 0 i.toNat else head 1 (-1 - i).toNat
   | .flt n => 0xf9 :: beN 2 (half n)
   | .bool b => [if b then 0xf5 else 0xf4]
+  | .arrStr l => head 4 l.length ++ l.flatMap (fun s => head 3 s.length ++ s)
+  | .arrInt l => head 4 l.length ++ l.flatMap (fun i => if i ≥ 0 then head 0 i.toNat else head 1 (-1 - i).toNat)
+  | .arrBool l => head 4 l.length ++ l.map (fun b => if b then 0xf5 else 0xf4)
+  | .optArr n => head 4 n ++ List.replicate n 0xa0
 
 def encKey (k : Bytes) : Bytes := head 3 k.length ++ k
 
